@@ -152,7 +152,7 @@ pub fn exec(tok: &[&str]) -> String {
         }
         "babai" => crate::c17::run_babai(&parse_ints::<i32>(tok[2]), &parse_ints::<i32>(tok[3]), &parse_ints::<i32>(tok[4]), &parse_ints::<i32>(tok[5])),
         // ---- key generation (C04, C05, C15) ------------------------------------------------------------
-        "keygen" => crate::keys::op_keygen(tok[1].parse().unwrap(), &unhex(tok[2])),
+        "keygen" | "keygen_model" => crate::keys::op_keygen(tok[1].parse().unwrap(), &unhex(tok[2])),
         "sk_roundtrip" => crate::keys::op_roundtrip(tok[1].parse().unwrap(), &unhex(tok[2])),
         "keygen_digest" => crate::keys::op_digest(tok[1].parse().unwrap(), &unhex(tok[2])),
         "sk_fields" => crate::c04::op_sk_fields(tok[1].parse().unwrap(), &parse_ints::<i64>(tok[2]), &parse_ints::<i64>(tok[3]), &parse_ints::<i64>(tok[4])),
